@@ -132,6 +132,9 @@ class Interp(object):
             raise Raised(name.split(".")[-1])
         elif isinstance(st, ast.Pass):
             return
+        elif isinstance(st, ast.FunctionDef):
+            # a local helper: a closure over the current bindings
+            env[st.name] = ("localfunc", st, env)
         elif isinstance(st, ast.For):
             it = self.expr(st.iter, env)
             if not isinstance(it, (list, tuple, str)) or isinstance(it, ListOfLen):
@@ -189,6 +192,8 @@ class Interp(object):
         if isinstance(e, ast.Name):
             if e.id in env:
                 return env[e.id]
+            if getattr(self, "closure", None) is not None and e.id in self.closure:
+                return self.closure[e.id]
             if e.id in self.module_env:
                 return self.module_env[e.id]
             if e.id in self.module_funcs:
@@ -328,6 +333,15 @@ class Interp(object):
             if any(p0 not in env2 for p0 in names):
                 raise Raised("TypeError", "lambda arguments")
             return self.expr(lam.body, env2)
+        if isinstance(f, tuple) and f and f[0] == "localfunc":
+            _, fn, cenv = f
+            sub = Interp(fn, self.module_env, self.builtins, self.max_steps, self.module_funcs, self.module_assigns)
+            sub.closure = cenv
+            sub.steps = self.steps
+            try:
+                return sub.call(*args, **dict(kwargs))
+            finally:
+                self.steps = sub.steps
         if isinstance(f, tuple) and f and f[0] == "func":
             sub = Interp(self.module_funcs[f[1]], self.module_env, self.builtins, self.max_steps, self.module_funcs, self.module_assigns)
             sub.steps = self.steps
@@ -402,7 +416,7 @@ class Interp(object):
             except TypeError:
                 raise Raised("TypeError")
             return r
-        if isinstance(f, tuple) and f and f[0] == "lambda":
+        if isinstance(f, tuple) and f and f[0] in ("lambda", "localfunc"):
             return self._apply(f, args, kwargs, e)
         if isinstance(f, tuple) and f and f[0] == "itemgetter":
             (x,) = args
